@@ -268,6 +268,6 @@ func runC10(c C10Case, info *kit.Info) *kit.Finding {
 }
 
 func TestC10_Reload(t *testing.T) {
-	p := kit.Prop[C10Case]{ID: "C10", Name: "Reload", Quick: 120, Thorough: 5000, Gen: genC10(6), Run: runC10}
+	p := kit.Prop[C10Case]{ID: "C10", Name: "Reload", Quick: 200, Thorough: 12000, Gen: genC10(6), Run: runC10}
 	p.Execute(t)
 }
